@@ -36,6 +36,8 @@ struct TrainT {
     label: Label,
     ptype: u16,
     pkts: Vec<Vec<u8>>,
+    /// ids of the header extensions the PDU was sent with (part of "its own metadata")
+    ext_ids: Vec<u16>,
 }
 
 /// a fragment id that maps to the same memory slot as `id` (congruent modulo `slots` as plain integers,
@@ -68,8 +70,8 @@ fn alias_id(id: u8, slots: usize, used: &[u8], pick: usize) -> Option<u8> {
 
 fn outcome(r: &DecRes) -> String {
     match r {
-        Ok(Ok((DecapStatus::CompletedPkt(b, m), n))) => format!("C({},{:#06x},{},{:016x},{})", m.pdu_len(), m.protocol_type(), label_str(&m.label()), fnv(&b[..m.pdu_len().min(b.len())]), n),
-        Ok(Ok((DecapStatus::FragmentedPkt(m), n))) => format!("F({:#06x},{},{})", m.protocol_type(), label_str(&m.label()), n),
+        Ok(Ok((DecapStatus::CompletedPkt(b, m), n))) => format!("C({},{:#06x},{},{:016x},{},x{:x?})", m.pdu_len(), m.protocol_type(), label_str(&m.label()), fnv(&b[..m.pdu_len().min(b.len())]), n, m.extensions().iter().map(|e| e.id()).collect::<Vec<_>>()),
+        Ok(Ok((DecapStatus::FragmentedPkt(m), n))) => format!("F({:#06x},{},{},x{:x?})", m.protocol_type(), label_str(&m.label()), n, m.extensions().iter().map(|e| e.id()).collect::<Vec<_>>()),
         Ok(Ok((DecapStatus::Padding, n))) => format!("P({})", n),
         Ok(Err((e, n))) => format!("E({},{})", short_err(e), n),
         Err(p) => format!("PANIC({})", crate::mon::panic_class(p)),
@@ -106,12 +108,24 @@ fn make_trains(rng: &mut Rng, shape: &[usize], slots: usize) -> Option<Vec<Train
         let ll = label_bytes(&label).len();
         // split into exactly nf packets: first carries a, intermediates carry b, end carries the rest
         let per = plen / *nf;
-        let first_buf = 7 + ll + per.max(1);
-        let t = build_train(&mut enc, &pdu, id, meta, None, |k| if k == 0 { first_buf } else if k + 1 < *nf { 3 + per.max(1) } else { 4097 }, 64).ok()?;
+        // one train in three carries header extensions (an optional one with data, sometimes a second without)
+        let exts: Option<Vec<dvb_gse_rust::header_extension::Extension>> = if (i + plen) % 3 == 0 {
+            let mut v = vec![dvb_gse_rust::header_extension::Extension::new(0x0200 | (plen as u16 & 0xFF), &[i as u8, 0xEE]).ok()?];
+            if plen % 2 == 0 {
+                v.push(dvb_gse_rust::header_extension::Extension::new(0x0100 | i as u16, &[]).ok()?);
+            }
+            Some(v)
+        } else {
+            None
+        };
+        let ext_ids: Vec<u16> = exts.as_ref().map(|v| v.iter().map(|e| e.id()).collect()).unwrap_or_default();
+        let ext_len: usize = exts.as_ref().map(|v| v.iter().map(|e| e.len()).sum()).unwrap_or(0);
+        let first_buf = 7 + ll + ext_len + per.max(1);
+        let t = build_train(&mut enc, &pdu, id, meta, exts, |k| if k == 0 { first_buf } else if k + 1 < *nf { 3 + per.max(1) } else { 4097 }, 64).ok()?;
         if !t.complete || t.pkts.len() != *nf {
             return None;
         }
-        out.push(TrainT { id, pdu, label, ptype, pkts: t.pkts });
+        out.push(TrainT { id, pdu, label, ptype, pkts: t.pkts, ext_ids });
     }
     Some(out)
 }
@@ -142,7 +156,7 @@ impl Property for Prop {
         "C07"
     }
     fn rule(&self) -> &'static str {
-        "merges: for each shape (fragments per PDU: 2x2, 2x3, 3x3, 2x4, 2x5, 3x4, 4x4, 5x5, 3x3x3, 2x3x4, 2x2x2x2, 2x2x3; thorough adds 4x4x4, 3x3x3x3, 5x5x2x2, 4x5x5, 2x2x2x3) trains are built by the real encapsulator on fragment ids distinct modulo the slot count (each shape on memories of 4, 3, 6 and 5 slots) and EVERY order-preserving merge is decapsulated on a fresh receiver (key = shape x memory size x 8 parts of the merge index space); the result stream restricted to each train must equal that train decapsulated alone, with exactly one delivery per PDU at its own end fragment. strays: for every merge of the small shapes one stray packet is inserted at EVERY position from {intermediate / end of an unknown id in an empty slot, intermediate / end of an id aliasing an open slot (id +/- slots), complete packet (accepted), complete packet too large for the storage (rejected), padding, a first fragment of an unknown or aliasing id that the receiver refuses (unknown mandatory extension, null label, total length too small: a refused first fragment does not claim the slot), an intermediate / end fragment carrying a train's own id before that train has started, and the non-packet event 'the application provisions storage until the memory reports it is full'}; the packet strays whose rejection must consume exactly the packet are also presented FRAMED (stray and the following train packet in one buffer, walked by consumed lengths). restart: a new first fragment on the same id restarts only that id (also when the abandoned and the new PDU differ in label mode: one first fragment carries its label, the other re-uses the preceding packet's). sampled: random merges of 4x5 with an aliasing stray on memories of 4..7, 255, 256 slots (ids 0, 255, 64, 1 there) and 100 / 200 slots (ids 64 and 128 apart). reuse-strays: all merges of 2x2, 2x3, 3x3, 2x2x2 where every PDU carries the same label and the re-use-enabled encapsulator is driven in the merge order (substituted first fragments), with a stray intermediate / end packet of an unknown or aliasing id at every position; reference = the same stream without the stray; additionally an extra PDU whose damaged end fragment (length mismatch) is rejected at every position. scarce: 4 trains of 3 fragments with only 1..3 storage buffers: every PDU whose first fragment was accepted is delivered exactly once. (All receivers are built with max_pdu_frag = length of the longest train.) Evaluations = decap calls; non-trivial = a merge in which at least two trains were really interleaved; fingerprint = hash(shape, merge order, stray)."
+        "merges: for each shape (fragments per PDU: 2x2, 2x3, 3x3, 2x4, 2x5, 3x4, 4x4, 5x5, 3x3x3, 2x3x4, 2x2x2x2, 2x2x3; thorough adds 4x4x4, 3x3x3x3, 5x5x2x2, 4x5x5, 2x2x2x3) trains (one in three with header extensions, which belong to the delivered metadata) are built by the real encapsulator on fragment ids distinct modulo the slot count (each shape on memories of 4, 3, 6 and 5 slots) and EVERY order-preserving merge is decapsulated on a fresh receiver (key = shape x memory size x 8 parts of the merge index space); the result stream restricted to each train must equal that train decapsulated alone, with exactly one delivery per PDU at its own end fragment. strays: for every merge of the small shapes one stray packet is inserted at EVERY position from {intermediate / end of an unknown id in an empty slot, intermediate / end of an id aliasing an open slot (id +/- slots), complete packet (accepted), complete packet too large for the storage (rejected), padding, a first fragment of an unknown or aliasing id that the receiver refuses (unknown mandatory extension, null label, total length too small: a refused first fragment does not claim the slot), an intermediate / end fragment carrying a train's own id before that train has started, and the non-packet event 'the application provisions storage until the memory reports it is full'}; the packet strays whose rejection must consume exactly the packet are also presented FRAMED (stray and the following train packet in one buffer, walked by consumed lengths). restart: a new first fragment on the same id restarts only that id (also when the abandoned and the new PDU differ in label mode: one first fragment carries its label, the other re-uses the preceding packet's). sampled: random merges of 4x5 with an aliasing stray on memories of 4..7, 255, 256 slots (ids 0, 255, 64, 1 there) and 100 / 200 slots (ids 64 and 128 apart). reuse-strays: all merges of 2x2, 2x3, 3x3, 2x2x2 where every PDU carries the same label and the re-use-enabled encapsulator is driven in the merge order (substituted first fragments; every second PDU through encap_ext with an optional extension; each PDU must be delivered exactly once), with a stray intermediate / end packet of an unknown or aliasing id at every position; reference = the same stream without the stray; additionally an extra PDU whose damaged end fragment (length mismatch) is rejected at every position. scarce: 4 trains of 3 fragments with only 1..3 storage buffers: every PDU whose first fragment was accepted is delivered exactly once. (All receivers are built with max_pdu_frag = length of the longest train.) Evaluations = decap calls; non-trivial = a merge in which at least two trains were really interleaved; fingerprint = hash(shape, merge order, stray)."
     }
     fn gens(&self, cx: &Cx) -> Vec<Gen> {
         let s = shapes(cx).len() as u64;
@@ -251,8 +265,9 @@ impl Property for Prop {
                 if let Ok(Ok((DecapStatus::CompletedPkt(b, m), _))) = r {
                     delivered[t] += 1;
                     let tr = &trains[t];
-                    if k + 1 != tr.pkts.len() || m.pdu_len() != tr.pdu.len() || b[..tr.pdu.len()] != tr.pdu[..] || m.label() != tr.label || m.protocol_type() != tr.ptype {
-                        rep.violation("C07", "delivery-not-intact".into(), || format!("merge order {:?}: train {} delivered at packet {} with {} bytes / label {} / type {:#06x}", order, t, k, m.pdu_len(), label_str(&m.label()), m.protocol_type()), &replay);
+                    let got_ext: Vec<u16> = m.extensions().iter().map(|e| e.id()).collect();
+                    if k + 1 != tr.pkts.len() || m.pdu_len() != tr.pdu.len() || b[..tr.pdu.len()] != tr.pdu[..] || m.label() != tr.label || m.protocol_type() != tr.ptype || got_ext != tr.ext_ids {
+                        rep.violation("C07", "delivery-not-intact".into(), || format!("merge order {:?}: train {} delivered at packet {} with {} bytes / label {} / type {:#06x} / extensions {:x?} (sent with {:x?})", order, t, k, m.pdu_len(), label_str(&m.label()), m.protocol_type(), got_ext, tr.ext_ids), &replay);
                         return false;
                     }
                     let _ = d.provision_storage(b);
@@ -409,8 +424,15 @@ impl Property for Prop {
                         let mut buf = vec![0u8; 4097];
                         let r = if k == 0 {
                             // the label may or may not be substituted: offer room for the full label
-                            let b = 7 + ll + per;
-                            crate::mon::guard(|| enc.encap(&pdus[t], ids[t], EncapMetadata::new(0x0800 + t as u16, label), &mut buf[..b]))
+                            // every second PDU is sent through encap_ext with one optional extension
+                            if t % 2 == 1 {
+                                let b = 7 + ll + 4 + per;
+                                let e = vec![dvb_gse_rust::header_extension::Extension::new(0x0242, &[0xE0 | t as u8, 7]).unwrap()];
+                                crate::mon::guard(|| enc.encap_ext(&pdus[t], ids[t], EncapMetadata::new(0x0800 + t as u16, label), &mut buf[..b], e))
+                            } else {
+                                let b = 7 + ll + per;
+                                crate::mon::guard(|| enc.encap(&pdus[t], ids[t], EncapMetadata::new(0x0800 + t as u16, label), &mut buf[..b]))
+                            }
                         } else {
                             let c = match ctxs[t] {
                                 Some(c) => c,
@@ -467,8 +489,9 @@ impl Property for Prop {
                     };
                     let delivered = reference.iter().filter(|o| o.starts_with("C(")).count();
                     if delivered != shape.len() {
-                        // e.g. an order in which a substituted first fragment cannot be resolved: not judged
-                        rep.count("c07.reuse.reference-incomplete");
+                        // all PDUs carry the same label and every re-use first fragment follows a start packet of this very
+                        // stream: each PDU must be delivered exactly once, also without any stray
+                        rep.violation("C07", "not-exactly-once:re-use-traffic".into(), || format!("shape {:?} ids {:?} label {} merge order {:?} (every second PDU sent through encap_ext): outcomes {:?}", shape, ids, label_str(&label), order, reference), &replay);
                         return;
                     }
                     rep.count("c07.reuse.streams");
